@@ -329,6 +329,16 @@ func (e *Exec) callByContract(st *State, fr *Frame, callee *ssa.Function, ct *Co
 	var res []*Value
 	rs := callee.Signature.Results()
 	for i := 0; i < rs.Len(); i++ {
+		if ct.Pure && len(leafSorts(rs.At(i).Type())) == 1 && leafSorts(rs.At(i).Type())[0] != SLoc {
+			// a pure function's scalar result is a function of its arguments (the
+			// environment is assumed not to change during a run)
+			var as []*Term
+			for _, a := range args {
+				as = append(as, a.L...)
+			}
+			res = append(res, &Value{T: rs.At(i).Type(), L: []*Term{UF(pureResultName(shortName(callee), i), leafSorts(rs.At(i).Type())[0], as...)}})
+			continue
+		}
 		res = append(res, e.havocValue(st, rs.At(i).Type(), "res_"+callee.Name()))
 	}
 	penv := e.entryEnv(st, callee, args, pre)
